@@ -84,6 +84,9 @@ func checkBounds(r *Run, a *algo, i int, s Sample, prev int) bool {
 func runC04(r *Run) {
 	t := r.T
 	cfg := drawAlgoCfg(t, []string{"aimd", "vegas", "gradient", "gradient2"}, []string{"", "", "windowed", "traced", "traced+windowed", "windowed+traced"})
+	if cfg.Name == "vegas" && cfg.Ctor == "" && t.Chance(20, "vegas-own-steps") {
+		cfg.VegasSteps = 1 + t.Intn(3, "vegas-steps") // the caller supplies its own increase and / or decrease step, the rest stays default
+	}
 	a, err := buildAlgo(cfg, t.Chance(30, "with-metric-registry")) // a recording registry: the metric plumbing runs inside OnSample, under its lock
 	if err != nil {
 		r.Fail("harness", "build", "%v [%s]", err, cfg)
